@@ -31,7 +31,10 @@ func cmpOf(r *LintResult) lintCmp {
 	return lintCmp{Stdout: r.Stdout, Exit: r.Exit, Errs: r.Errs, Fatal: r.Fatal != ""}
 }
 
-var reCalleeDefect = regexp.MustCompile(`reusable workflow|action metadata|in "[^"]*" action|local action|action defined at|the action is defined at|metadata of`)
+// reCalleeDefect recognises the diagnostics about a local callee's OWN defects
+// (reported while its metadata is loaded and checked, once per run), as opposed
+// to diagnostics about a call site.
+var reCalleeDefect = regexp.MustCompile(`^could not read reusable workflow file for |^error while parsing reusable workflow |^could not parse action metadata in |^name is required in action metadata |in metadata of "[^"]*" action at |in "runs" section because "[^"]*" is a |^file "[^"]*" does not exist in "[^"]*"\. it is specified at |referenced from "image" key must be named |is required when "(pre|post)-if" is specified in "runs" section|^"runs\.using" is missing in local action |at runs\.using in "[^"]*" action defined at `)
 
 var reQuoted = regexp.MustCompile(`"[^"]*"`)
 var reDigits = regexp.MustCompile(`[0-9]+`)
@@ -160,7 +163,7 @@ func firstDiff(a, b lintCmp) (what string, class string) {
 
 func (c02) Eval(c *Chooser, env *Env) *Outcome {
 	o := &Outcome{}
-	opts := GenOpts{Ties: true, Corpus: true, Defective: true, Loose: true, SelfArg: true, MaxRepos: 2, MaxFiles: 3}
+	opts := GenOpts{Ties: true, Corpus: true, Projects: true, Defective: true, Loose: true, SelfArg: true, MaxRepos: 2, MaxFiles: 3}
 	switch env.Variant {
 	case "single":
 		opts.MaxRepos, opts.MaxFiles = 1, 1
